@@ -337,6 +337,8 @@ class ExprMixin:
                 out.append((s, None))
                 continue
             ety = self.hint_type(e) or (vals[0].ty if vals else None)
+            if ety is not None and ety[0] == 'enum':
+                ety = INT
             if ety is None:
                 # element type fixed at first append
                 l = VList(None, None)
@@ -361,7 +363,10 @@ class ExprMixin:
     def e_Dict(self, st, e):
         if e.keys:
             self.unsupported(e, 'non-empty dict literal')
-        self.unsupported(e, 'dict literal without declared type')
+        ty = self.hint_type(e)
+        if ty is None:
+            self.unsupported(e, 'dict literal without declared type (add `hints`)')
+        return [(st, self.new_dict(st, ty[1], ty[2]))]
 
     def e_JoinedStr(self, st, e):
         # f-strings: an opaque string (content irrelevant to every contract; A-STR)
@@ -655,7 +660,7 @@ class ExprMixin:
             for n in range(0, 41):
                 facts.append(z3.Implies(e == n, f(e) == 2 ** n))
             facts.append(z3.Implies(e > 40, f(e) > 2 ** 40))
-            st.assume(*facts)
+            st.fact(*facts)
         return f(e)
 
     def bitand(self, st, x, y, node):
@@ -679,7 +684,14 @@ class ExprMixin:
     def bitor(self, st, x, y, node):
         if is_const_int(x) and is_const_int(y):
             return z3.IntVal(x.as_long() | y.as_long())
-        self.unsupported(node, 'bitwise or')
+        # a | b == a + b when the operands occupy disjoint bit ranges: a % 2^k == 0 and 0 <= b < 2^k
+        from .solve import prove
+        for a, b in ((x, y), (y, x)):
+            for k in (4, 8, 1, 2, 3, 5, 6, 7, 16):
+                v, _, _, _ = prove(st.pc, z3.And(a % (2 ** k) == 0, a >= 0, b >= 0, b < 2 ** k), timeout=2000)
+                if v == 'proved':
+                    return z3.simplify(a + b)
+        self.unsupported(node, 'bitwise or of operands whose bit ranges are not provably disjoint')
 
     def force(self, st, v, node, exc='builtins:TypeError'):
         """case split an optional: [(st, inner)] plus a raising state for None"""
